@@ -61,6 +61,7 @@ class TBuilder(Builder):
 
 class Prop(BaseProp):
     ID = "C11"
+    PIPELINES = True      # a fixed share of the cases goes through cminx.main (-o and stdout) instead of the Documenter
     ANCHORS = ['cminx.aggregator:DocumentationAggregator.process_ct_add_test', 'cminx.aggregator:DocumentationAggregator.process_ct_add_section', 'cminx.aggregator:DocumentationAggregator.process_add_test', 'cminx.documentation_types:CTestDocumentation.process']
     LEVEL = "exploration"
     RULE = ("ct_add_test/ct_add_section/add_test with NAME at every argument position, EXPECTFAIL present/absent at "
